@@ -18,16 +18,17 @@ def run(tier, seed, mutant=None, only_validate=False):
     try:
         if not only_validate:
             ne = 3 if tier == "quick" else 4
-            for aw, bf in ((True, False), (False, True), (True, True)):
+            for aw, bf in ((True, False), (True, True)):
                 for sync in (False, True):
                     r, rec = amod.mc(res, work, "DaskFlow", "await%d_buffered%d_sync%d" % (aw, bf, sync),
                                      dict(NE=ne, Await=aw, Buffered=bf, SyncCons=sync), INVS, ["AllDelivered"], spec="FairSpec",
                                      coverage=False)
                     amod.spec_violation(res, r, rec, {}, "C20", "dask")
             # a producer that does not await its emits: everything but the order holds; the loss of order is exhibited
-            r, rec = amod.mc(res, work, "DaskFlow", "fire_and_forget", dict(NE=ne, Await=False, Buffered=False, SyncCons=False),
-                             [i for i in INVS if i != "SameOrder"], ["AllDelivered"], spec="FairSpec", coverage=False)
-            amod.spec_violation(res, r, rec, {}, "C20", "dask")
+            for bf in (False, True):
+                r, rec = amod.mc(res, work, "DaskFlow", "fire_and_forget_buffered%d" % bf, dict(NE=ne, Await=False, Buffered=bf, SyncCons=False),
+                                 [i for i in INVS if i != "SameOrder"], ["AllDelivered"], spec="FairSpec", coverage=False)
+                amod.spec_violation(res, r, rec, {}, "C20", "dask")
             r, rec = amod.mc(res, work, "DaskFlow", "fire_and_forget_order", dict(NE=3, Await=False, Buffered=False, SyncCons=False),
                              ["SameOrder"], coverage=False)
             rec["expected_violation"] = "SameOrder"
@@ -69,7 +70,7 @@ def run(tier, seed, mutant=None, only_validate=False):
             c = r["cfg"]
             for lidx in sorted(unsafe.get(r["id"], ())):
                 if lidx < got[0] or got[0] >= got[1]:
-                    serialised = c["await"] or c["shape"] in ("map_buffer", "accumulate")
+                    serialised = c["await"]
                     res.violations.append(dict(
                         property="C20", engine="adask", clause="SameOrder",
                         what="dask %s, tasks finished in order %s: results were delivered as elements %s, the local pipeline delivers them "
